@@ -597,17 +597,20 @@ func c07Session(t *testing.T, v c07Variant, rng *vRand, drop int, mtu int, early
 		var wg sync.WaitGroup
 		for _, p := range []*vPeer{lab.Client, lab.Server} {
 			for k := 0; k < 2; k++ {
+				var pls [][]byte // the shared PRNG is used by this goroutine only
+				for i := 0; i < 3; i++ {
+					pls = append(pls, append([]byte(fmt.Sprintf("c07/%s/post%d-%d/", p.Name, k, i)), rng.bytes(32)...))
+				}
+				wr.mu.Lock()
+				wr.payloads = append(wr.payloads, pls...)
+				wr.mu.Unlock()
 				wg.Add(1)
-				go func(p *vPeer, k int) {
+				go func(p *vPeer, pls [][]byte) {
 					defer wg.Done()
-					for i := 0; i < 3; i++ {
-						pl := append([]byte(fmt.Sprintf("c07/%s/post%d-%d/", p.Name, k, i)), rng.bytes(32)...)
-						wr.mu.Lock()
-						wr.payloads = append(wr.payloads, pl)
-						wr.mu.Unlock()
+					for _, pl := range pls {
 						_, _ = p.Conn.Write(pl)
 					}
-				}(p, k)
+				}(p, pls)
 			}
 		}
 		if early {
@@ -617,7 +620,18 @@ func c07Session(t *testing.T, v c07Variant, rng *vRand, drop int, mtu int, early
 			}
 		}
 		net.drain(2 * time.Second)
-		wg.Wait()
+		if early {
+			// bounded: a writer that never returns must not hang the run (it shows up as an undelivered payload)
+			wdone := make(chan struct{})
+			go func() { wg.Wait(); close(wdone) }()
+			select {
+			case <-wdone:
+			case <-time.After(5 * time.Second):
+				res.Err += " writers still blocked after 5s"
+			}
+		} else {
+			wg.Wait()
+		}
 		net.drain(time.Second)
 		if v.V13 {
 			// key updates, with traffic in between
